@@ -691,7 +691,7 @@ class Analyzer:
                             votes[t.id].add(self.syn_kind(n.value))
                 elif isinstance(n, ast.Name) and isinstance(n.ctx, ast.Store) and n.id in votes:
                     votes[n.id].add("?")
-        for n in names:
+        for n in sorted(names):
             # every Store occurrence voted "?" once; plain `name = value` assignments voted their kind too
             nstores = sum(1 for s in stmts for x in ast.walk(s)
                           if isinstance(x, ast.Name) and isinstance(x.ctx, ast.Store) and x.id == n)
@@ -724,7 +724,7 @@ class Analyzer:
         for e in envs:
             keys |= set(e)
         out = {}
-        for k in keys:
+        for k in sorted(keys):
             vs = [e[k] for e in envs if k in e]
             if len(set(vs)) == 1:
                 out[k] = vs[0]
@@ -1396,6 +1396,35 @@ def analyse_all(G):
     return rounds
 
 
+def extract_out_protocol(repo):
+    """the explicit out= target: SparseArray._make_shallow_copy_of replaces exactly self.__dict__ by a
+    shallow copy of other.__dict__, and __array_ufunc__ applies it to the object taken from kwargs['out']
+    (and to nothing else), with the computed result as source."""
+    tree = ast.parse(open(os.path.join(repo, "sparse/numba_backend/_sparse_array.py")).read())
+    cls = next((n for n in tree.body if isinstance(n, ast.ClassDef) and n.name == "SparseArray"), None)
+    if cls is None:
+        raise Shape("class SparseArray not found")
+    fns = {n.name: n for n in cls.body if isinstance(n, ast.FunctionDef)}
+    if "_make_shallow_copy_of" not in fns or "__array_ufunc__" not in fns:
+        raise Shape("SparseArray._make_shallow_copy_of / __array_ufunc__ not found")
+    m = fns["_make_shallow_copy_of"]
+    body = [x for x in m.body if not (isinstance(x, ast.Expr) and isinstance(x.value, ast.Constant))]
+    params = [a.arg for a in m.args.args]
+    dict_swap = (len(params) == 2 and len(body) == 1 and isinstance(body[0], ast.Assign)
+                 and ast.unparse(body[0]) == f"{params[0]}.__dict__ = {params[1]}.__dict__.copy()")
+    u = fns["__array_ufunc__"]
+    calls = [n for n in ast.walk(u) if isinstance(n, ast.Call) and isinstance(n.func, ast.Attribute)
+             and n.func.attr == "_make_shallow_copy_of"]
+    out_from_kwargs = any(isinstance(n, ast.Assign) and ast.unparse(n.targets[0]) == "out"
+                          and ast.unparse(n.value).startswith("kwargs.pop('out'") for n in ast.walk(u))
+    unpack = any(isinstance(n, ast.Assign) and ast.unparse(n) in ("(out,) = out", "out, = out") for n in ast.walk(u))
+    only_out = (len(calls) == 1 and ast.unparse(calls[0]) == "out._make_shallow_copy_of(result)"
+                and out_from_kwargs and unpack)
+    # nothing else in the anchored class assigns to an attribute of `out`
+    other_stores = [n for n in ast.walk(u) if isinstance(n, ast.Attribute) and isinstance(n.ctx, ast.Store)]
+    return {"shallow_copy_is_dict_swap": dict_swap, "ufunc_swaps_only_out": only_out and not other_stores}
+
+
 def coq_stmt(s):
     if s[0] == "W":
         return f"wR {s[1]}"
@@ -1449,12 +1478,19 @@ def gen_alias(repo):
             L.append(f"(*   {r.qual}: {ws} *)")
             hl.append(f"({coq_str(r.qual)}, {len(r.writes)})")
     L.append("Definition helper_writes : list (string * N) := [" + "; ".join(hl) + "].")
+    outp = extract_out_protocol(repo)
+    L.append("")
+    L.append("(* the explicit out= target (exempt by the property): _make_shallow_copy_of is "
+             "`self.__dict__ = other.__dict__.copy()`")
+    L.append("   and __array_ufunc__ applies it to the object popped from kwargs['out'] only *)")
+    for k, v in outp.items():
+        L.append(f"Definition {k} : bool := {coq_bool(v)}.")
     n_writes = sum(len(r.write_info) for r, _ in obligations)
     rejected = {q: d["rejected_writes"] for q, d in rep_funcs.items() if d["rejected_writes"]}
     rep = {"effect_summaries": {"status": "ok", "functions": len(obligations), "helpers": len(helpers),
                                 "write_sites": n_writes, "fixpoint_rounds": rounds,
                                 "package_functions_analysed": len(G.recs), "rejected": rejected,
-                                "api_classes": G.sparse_classes,
+                                "api_classes": G.sparse_classes, "out_protocol": outp,
                                 "calls_into_param_writing_functions_outside_anchored_files": foreign}}
     return "\n".join(L) + "\n", rep
 
